@@ -96,7 +96,15 @@ def copies(n):
     return cols, b
 
 
+def elements_chain(n):
+    """A chain running through the periodic table (own table): element k+1 at position k, wrapping around."""
+    from .ref.periodic import SYMBOLS
+
+    return [(SYMBOLS[i % 118], None, None) for i in range(n)], [(i, i + 1) for i in range(n - 1)]
+
+
 FAMILIES = {
+    "elements_chain": elements_chain,
     "path": path, "labelled_path": labelled_path, "hetero_path": hetero_path, "cycle": cycle,
     "labelled_cycle": labelled_cycle, "ladder": ladder, "comb": comb, "caterpillar": caterpillar,
     "peptide": peptide, "star": star, "complete": complete, "isolated": isolated, "copies": copies,
@@ -137,6 +145,8 @@ def run_pipeline(cols, bonds, full=True):
     g = graph_from_molfile_text(text)
     gc = canonicalize_molecule(g)
     rounds = len({d["partition"] for _, d in gc.nodes(data=True)})
+    if n <= 300:
+        canonicalize_molecule(gc)  # a canonical graph is a molecule too: canonicalizing it again must return normally
     s = serialize_molecule(gc)
     if serialize_molecule(gc) != s:
         return s, "serializing the same canonical graph a second time gives a different string", rounds
